@@ -1,6 +1,822 @@
-//! C06 — not built yet.
-use vcommon::Args;
+//! C06 - signature strings parse exactly per the D-Bus type grammar (+ GVariant maybe).
+//!
+//! Space: every string of length <= 6 (quick) / <= 8 (thorough) over the 11 symbols
+//! `y s v a ( ) { } h m z`, plus generated boundary strings (byte lengths 253..=257, array depth
+//! 30..=34, struct depth 30..=34, mixed nestings).
+//!
+//! Oracle (reference grammar `refsig` below, written from the specification's "Type System"
+//! section): a signature is a sequence of single complete types; dict entries only directly as
+//! array elements, exactly two fields, basic-type key; structs non-empty; <= 255 bytes; <= 32
+//! nested arrays and <= 32 nested structs (dict entries are not structs); `m<type>` when maybe is
+//! enabled (no nesting limit is stated for maybe, none is applied).
+//! For accepted strings: formatting reproduces the input up to the outer parentheses of multi-type
+//! signatures, `string_len` matches, `validate`/`from_bytes`/`TryFrom` agree with `from_str`, and
+//! equal signatures built differently are ==, hash equally, compare Equal and == their string.
+//! How *unequal* signatures compare is not stated by the property and not checked.
 
-pub fn main(_args: &Args) -> i32 {
-    vcommon::machinery_failure("C06: check not built yet")
+use std::{
+    collections::BTreeMap,
+    hash::{Hash, Hasher},
+    str::FromStr,
+    sync::{
+        atomic::{AtomicU64, Ordering::Relaxed},
+        Mutex,
+    },
+};
+
+use serde_json::json;
+use vcommon::{enumerate, hash64, Args, Report, Tier, Violation};
+use zvariant::{
+    serialized::{Context, Data},
+    Signature, LE,
+};
+
+use crate::c10::LibDbus;
+
+pub const ALPHABET: [u8; 11] = *b"ysva(){}hmz";
+
+// ---------------------------------------------------------------------------------------------
+// refsig: the reference grammar
+// ---------------------------------------------------------------------------------------------
+
+#[derive(Clone, Debug, PartialEq, Eq)]
+pub enum T {
+    Leaf(u8),
+    Array(Box<T>),
+    Dict(Box<T>, Box<T>),
+    Struct(Vec<T>),
+    Maybe(Box<T>),
+}
+
+#[derive(Clone, Copy, Debug, PartialEq, Eq)]
+pub struct Rules {
+    pub maybe: bool,
+    pub basic_keys: bool,
+    pub max_len: bool,
+    pub array_depth: bool,
+    pub struct_depth: bool,
+}
+
+impl Rules {
+    pub const fn strict(maybe: bool) -> Rules {
+        Rules { maybe, basic_keys: true, max_len: true, array_depth: true, struct_depth: true }
+    }
+}
+
+#[derive(Clone, Copy, Debug, PartialEq, Eq)]
+pub enum Why {
+    TooLong,
+    UnknownCode,
+    MissingType,
+    EmptyStruct,
+    Unclosed,
+    StrayClose,
+    DictEntryOutsideArray,
+    DictEntryArity,
+    DictKeyNotBasic,
+    ArrayDepth,
+    StructDepth,
+}
+
+pub const MAX_LEN: usize = 255;
+pub const MAX_DEPTH: usize = 32;
+
+fn is_basic_code(c: u8) -> bool {
+    matches!(c, b'y' | b'b' | b'n' | b'q' | b'i' | b'u' | b'x' | b't' | b'd' | b's' | b'o' | b'g' | b'h')
+}
+
+struct P<'a> {
+    b: &'a [u8],
+    i: usize,
+    rules: Rules,
+}
+
+impl P<'_> {
+    /// One single complete type. `arr`/`st` = number of enclosing arrays / structs.
+    fn one(&mut self, arr: usize, st: usize) -> Result<T, Why> {
+        let Some(&c) = self.b.get(self.i) else { return Err(Why::MissingType) };
+        self.i += 1;
+        match c {
+            c if is_basic_code(c) || c == b'v' => Ok(T::Leaf(c)),
+            b'm' if self.rules.maybe => Ok(T::Maybe(Box::new(self.one(arr, st)?))),
+            b'a' => {
+                if self.rules.array_depth && arr + 1 > MAX_DEPTH {
+                    return Err(Why::ArrayDepth);
+                }
+                if self.b.get(self.i) == Some(&b'{') {
+                    self.i += 1;
+                    let key = self.one(arr + 1, st)?;
+                    if self.rules.basic_keys && !matches!(key, T::Leaf(k) if is_basic_code(k)) {
+                        return Err(Why::DictKeyNotBasic);
+                    }
+                    if self.b.get(self.i) == Some(&b'}') {
+                        return Err(Why::DictEntryArity);
+                    }
+                    let val = self.one(arr + 1, st)?;
+                    match self.b.get(self.i) {
+                        Some(b'}') => {
+                            self.i += 1;
+                            Ok(T::Dict(Box::new(key), Box::new(val)))
+                        }
+                        None => Err(Why::Unclosed),
+                        Some(_) => Err(Why::DictEntryArity),
+                    }
+                } else {
+                    Ok(T::Array(Box::new(self.one(arr + 1, st)?)))
+                }
+            }
+            b'(' => {
+                if self.rules.struct_depth && st + 1 > MAX_DEPTH {
+                    return Err(Why::StructDepth);
+                }
+                let mut fields = vec![];
+                loop {
+                    match self.b.get(self.i) {
+                        None => return Err(Why::Unclosed),
+                        Some(b')') => {
+                            self.i += 1;
+                            break;
+                        }
+                        Some(_) => fields.push(self.one(arr, st + 1)?),
+                    }
+                }
+                if fields.is_empty() {
+                    return Err(Why::EmptyStruct);
+                }
+                Ok(T::Struct(fields))
+            }
+            b'{' => Err(Why::DictEntryOutsideArray),
+            b')' | b'}' => Err(Why::StrayClose),
+            _ => Err(Why::UnknownCode),
+        }
+    }
+}
+
+/// The reference recognizer: the list of single complete types, or why not.
+pub fn refsig(s: &[u8], rules: Rules) -> Result<Vec<T>, Why> {
+    if rules.max_len && s.len() > MAX_LEN {
+        return Err(Why::TooLong);
+    }
+    let mut p = P { b: s, i: 0, rules };
+    let mut out = vec![];
+    while p.i < s.len() {
+        out.push(p.one(0, 0)?);
+    }
+    Ok(out)
+}
+
+pub fn write_t(t: &T, out: &mut String) {
+    match t {
+        T::Leaf(c) => out.push(*c as char),
+        T::Array(e) => {
+            out.push('a');
+            write_t(e, out)
+        }
+        T::Maybe(e) => {
+            out.push('m');
+            write_t(e, out)
+        }
+        T::Dict(k, v) => {
+            out.push_str("a{");
+            write_t(k, out);
+            write_t(v, out);
+            out.push('}')
+        }
+        T::Struct(fs) => {
+            out.push('(');
+            fs.iter().for_each(|f| write_t(f, out));
+            out.push(')')
+        }
+    }
+}
+
+/// Which single rules (or combination) must be dropped for the reference to accept `s`.
+pub fn needed_relaxation(s: &[u8], maybe: bool) -> String {
+    let names = ["dict-key", "length", "array-depth", "struct-depth"];
+    let mut masks: Vec<u32> = (1..16).collect();
+    masks.sort_by_key(|m| (m.count_ones(), *m));
+    for m in masks {
+        let r = Rules {
+            maybe,
+            basic_keys: m & 1 == 0,
+            max_len: m & 2 == 0,
+            array_depth: m & 4 == 0,
+            struct_depth: m & 8 == 0,
+        };
+        if refsig(s, r).is_ok() {
+            return (0..4).filter(|i| m & (1 << i) != 0).map(|i| names[i]).collect::<Vec<_>>().join("+");
+        }
+    }
+    "not-a-type-sequence".into()
+}
+
+// ---------------------------------------------------------------------------------------------
+// building zvariant signatures from the reference AST, three ways
+// ---------------------------------------------------------------------------------------------
+
+#[derive(Clone, Copy, PartialEq, Debug)]
+enum Mode {
+    Dynamic,
+    Static,
+    /// static at even depth, dynamic at odd depth
+    Mixed,
+}
+
+/// Keeps the targets of the `&'static` references alive while the built signature is in use.
+#[derive(Default)]
+struct Arena {
+    sigs: Vec<Box<Signature>>,
+    slices: Vec<Box<[&'static Signature]>>,
+}
+
+impl Arena {
+    fn pin(&mut self, s: Signature) -> &'static Signature {
+        let b = Box::new(s);
+        // SAFETY: the box's heap allocation is stable and kept in `self.sigs`; every signature built
+        // with this arena is dropped before the arena (see `with_built`).
+        let r: &'static Signature = unsafe { &*(b.as_ref() as *const Signature) };
+        self.sigs.push(b);
+        r
+    }
+    fn pin_slice(&mut self, v: Vec<&'static Signature>) -> &'static [&'static Signature] {
+        let b: Box<[&'static Signature]> = v.into_boxed_slice();
+        // SAFETY: as above.
+        let r: &'static [&'static Signature] = unsafe { &*(b.as_ref() as *const [&'static Signature]) };
+        self.slices.push(b);
+        r
+    }
+}
+
+fn leaf_sig(c: u8) -> Signature {
+    match c {
+        b'y' => Signature::U8,
+        b'b' => Signature::Bool,
+        b'n' => Signature::I16,
+        b'q' => Signature::U16,
+        b'i' => Signature::I32,
+        b'u' => Signature::U32,
+        b'x' => Signature::I64,
+        b't' => Signature::U64,
+        b'd' => Signature::F64,
+        b's' => Signature::Str,
+        b'o' => Signature::ObjectPath,
+        b'g' => Signature::Signature,
+        b'v' => Signature::Variant,
+        b'h' => Signature::Fd,
+        _ => unreachable!("not a leaf code"),
+    }
+}
+
+fn build(t: &T, mode: Mode, depth: usize, arena: &mut Arena) -> Signature {
+    let stat = match mode {
+        Mode::Dynamic => false,
+        Mode::Static => true,
+        Mode::Mixed => depth % 2 == 0,
+    };
+    match t {
+        T::Leaf(c) => leaf_sig(*c),
+        T::Array(e) => {
+            let c = build(e, mode, depth + 1, arena);
+            if stat {
+                Signature::static_array(arena.pin(c))
+            } else {
+                Signature::array(c)
+            }
+        }
+        T::Maybe(e) => {
+            let c = build(e, mode, depth + 1, arena);
+            if stat {
+                Signature::static_maybe(arena.pin(c))
+            } else {
+                Signature::maybe(c)
+            }
+        }
+        T::Dict(k, v) => {
+            let k = build(k, mode, depth + 1, arena);
+            let v = build(v, mode, depth + 1, arena);
+            if stat {
+                Signature::static_dict(arena.pin(k), arena.pin(v))
+            } else {
+                Signature::dict(k, v)
+            }
+        }
+        T::Struct(fs) => build_struct(fs, mode, depth, arena),
+    }
+}
+
+fn build_struct(fs: &[T], mode: Mode, depth: usize, arena: &mut Arena) -> Signature {
+    let stat = match mode {
+        Mode::Dynamic => false,
+        Mode::Static => true,
+        Mode::Mixed => depth % 2 == 0,
+    };
+    let fields: Vec<Signature> = fs.iter().map(|f| build(f, mode, depth + 1, arena)).collect();
+    if stat {
+        let refs: Vec<&'static Signature> = fields.into_iter().map(|f| arena.pin(f)).collect();
+        Signature::static_structure(arena.pin_slice(refs))
+    } else {
+        Signature::structure(fields)
+    }
+}
+
+fn build_top(ts: &[T], mode: Mode, arena: &mut Arena) -> Signature {
+    match ts.len() {
+        0 => Signature::Unit,
+        1 => build(&ts[0], mode, 0, arena),
+        _ => build_struct(ts, mode, 0, arena),
+    }
+}
+
+fn std_hash(s: &Signature) -> u64 {
+    let mut h = std::collections::hash_map::DefaultHasher::new();
+    s.hash(&mut h);
+    h.finish()
+}
+
+// ---------------------------------------------------------------------------------------------
+// observation of the subject
+// ---------------------------------------------------------------------------------------------
+
+#[derive(Debug, Clone, PartialEq)]
+pub struct Acceptance {
+    pub from_str: Result<bool, String>,
+    pub others: Vec<(&'static str, Result<bool, String>)>,
+}
+
+fn accept_routes(s: &str, with_deser: bool) -> Acceptance {
+    let from_str = vcommon::catch(|| Signature::from_str(s).is_ok());
+    let mut others = vec![
+        ("validate", vcommon::catch(|| zvariant::signature::validate(s.as_bytes()).is_ok())),
+        ("from_bytes", vcommon::catch(|| Signature::from_bytes(s.as_bytes()).is_ok())),
+        ("try_from(&str)", vcommon::catch(|| Signature::try_from(s).is_ok())),
+        ("try_from(&[u8])", vcommon::catch(|| Signature::try_from(s.as_bytes()).is_ok())),
+    ];
+    if with_deser && s.len() <= 255 {
+        // reference D-Bus encoding of a `g`: u8 length, bytes, NUL
+        let mut b = vec![s.len() as u8];
+        b.extend_from_slice(s.as_bytes());
+        b.push(0);
+        let d = Data::new(b, Context::new_dbus(LE, 0));
+        others.push(("deserialize(dbus g)", vcommon::catch(|| d.deserialize::<Signature>().is_ok())));
+    }
+    Acceptance { from_str, others }
+}
+
+/// One failed law on an accepted string.
+struct Fail {
+    clause: &'static str,
+    what: String,
+    detail: String,
+}
+
+/// All laws for a string both sides accept. `ts` is the reference AST.
+fn check_accepted(s: &str, ts: &[T], fails: &mut Vec<Fail>) {
+    let r = vcommon::catch(|| {
+        let mut fails = vec![];
+        let mut fail = |clause: &'static str, what: &str, detail: String| {
+            fails.push(Fail { clause, what: what.to_string(), detail })
+        };
+        let parsed = Signature::from_str(s).expect("accepted");
+        let multi = ts.len() >= 2;
+        let with_parens = if multi { format!("({s})") } else { s.to_string() };
+
+        // formatting
+        let ts_ = parsed.to_string();
+        if ts_ != with_parens {
+            fail("format-reproduces-input", "to_string", format!("to_string() = {ts_:?}, expected {with_parens:?}"));
+        }
+        let disp = format!("{parsed}");
+        if disp != with_parens {
+            fail("format-reproduces-input", "Display", format!("Display = {disp:?}, expected {with_parens:?}"));
+        }
+        // documented: no_parens strips the parentheses of a structure signature (only)
+        let expect_np = match ts {
+            [T::Struct(_)] => s[1..s.len() - 1].to_string(),
+            _ => s.to_string(),
+        };
+        let np = parsed.to_string_no_parens();
+        if np != expect_np {
+            fail("format-reproduces-input", "to_string_no_parens", format!("to_string_no_parens() = {np:?}, expected {expect_np:?}"));
+        }
+        let mut w = String::new();
+        let _ = parsed.write_as_string_no_parens(&mut w);
+        if w != expect_np {
+            fail("format-reproduces-input", "write_as_string_no_parens", format!("wrote {w:?}, expected {expect_np:?}"));
+        }
+        // string_len
+        if parsed.string_len() != with_parens.len() {
+            fail("string-len-matches", "string_len", format!("string_len() = {}, string form {with_parens:?} has {}", parsed.string_len(), with_parens.len()));
+        }
+
+        // equal signatures in different representations
+        let mut arena = Arena::default();
+        {
+            let mut reps: Vec<(&'static str, Signature)> = vec![("parsed", parsed.clone())];
+            if multi && s.len() + 2 <= MAX_LEN {
+                match Signature::from_str(&with_parens) {
+                    Ok(p) => reps.push(("parsed-with-outer-parens", p)),
+                    Err(_) => fail("accept-iff-grammar", "outer-parens", format!("{with_parens:?} rejected although {s:?} is accepted")),
+                }
+            }
+            if let Ok(p) = Signature::from_bytes(s.as_bytes()) {
+                reps.push(("from_bytes", p));
+            }
+            reps.push(("built-dynamic", build_top(ts, Mode::Dynamic, &mut arena)));
+            reps.push(("built-static", build_top(ts, Mode::Static, &mut arena)));
+            reps.push(("built-mixed", build_top(ts, Mode::Mixed, &mut arena)));
+            reps.push(("From<&Signature>", Signature::from(&parsed)));
+            for (i, (na, a)) in reps.iter().enumerate() {
+                if a.to_string() != with_parens {
+                    fail("format-reproduces-input", &format!("to_string of {na}"), format!("{na}: to_string() = {:?}, expected {with_parens:?}", a.to_string()));
+                }
+                if a.string_len() != with_parens.len() {
+                    fail("string-len-matches", &format!("string_len of {na}"), format!("{na}: string_len() = {}, expected {}", a.string_len(), with_parens.len()));
+                }
+                // == their string form (&str and str); a multi-type signature is documented to
+                // equal both the parenthesised and the bare form
+                if !(*a == with_parens.as_str()) || !(*a == *with_parens.as_str()) {
+                    fail("equal-to-string-form", &format!("{na} == str"), format!("{na} != {with_parens:?}"));
+                }
+                if multi && !(*a == s) {
+                    fail("equal-to-string-form", &format!("{na} == bare str"), format!("{na} != {s:?} (form without the outer parentheses)"));
+                }
+                for (nb, b) in reps.iter().skip(i) {
+                    let pair = format!("{na} vs {nb}");
+                    if !(a == b) || !(b == a) {
+                        fail("equal-representations-eq", &pair, format!("{pair}: not =="));
+                    }
+                    if std_hash(a) != std_hash(b) {
+                        fail("equal-representations-hash", &pair, format!("{pair}: hashes differ"));
+                    }
+                    if a.cmp(b) != std::cmp::Ordering::Equal || b.cmp(a) != std::cmp::Ordering::Equal || a.partial_cmp(b) != Some(std::cmp::Ordering::Equal) {
+                        fail("equal-representations-cmp", &pair, format!("{pair}: cmp = {:?}", a.cmp(b)));
+                    }
+                }
+            }
+            drop(reps);
+        }
+        drop(arena);
+        fails
+    });
+    match r {
+        Ok(f) => fails.extend(f),
+        Err(m) => fails.push(Fail { clause: "no-panic", what: "laws".into(), detail: format!("panicked: {m} at {}", vcommon::last_panic_location()) }),
+    }
+}
+
+// ---------------------------------------------------------------------------------------------
+// cases
+// ---------------------------------------------------------------------------------------------
+
+#[derive(Default)]
+struct Local {
+    evals: u64,
+    outcomes: BTreeMap<&'static str, u64>,
+    nontrivial: Vec<u64>,
+    viol: BTreeMap<(String, String), (u64, Option<Violation>)>,
+    samples: Vec<serde_json::Value>,
+    audited: u64,
+}
+
+impl Local {
+    fn violation(&mut self, v: Violation) {
+        let id = (v.clause.clone(), format!("{:?}", v.features));
+        let e = self.viol.entry(id).or_insert((0, None));
+        e.0 += 1;
+        if e.1.is_none() {
+            e.1 = Some(v);
+        }
+    }
+}
+
+struct Shared<'a> {
+    lib: Option<&'a LibDbus>,
+    audit_fail: &'a Mutex<Option<String>>,
+    maybe: bool,
+}
+
+fn eval_case(s: &str, origin: &'static str, audit: bool, with_deser: bool, sh: &Shared<'_>, loc: &mut Local) {
+    loc.evals += 1;
+    let reference = refsig(s.as_bytes(), Rules::strict(sh.maybe));
+    if audit {
+        if let Some(lib) = sh.lib {
+            loc.audited += 1;
+            let plain = refsig(s.as_bytes(), Rules::strict(false)).is_ok();
+            let l = lib.call(lib.signature_validate, s);
+            if plain != l {
+                sh.audit_fail.lock().unwrap().get_or_insert(format!(
+                    "refsig (without maybe) on {s:?} = {plain} but dbus_signature_validate says {l}"
+                ));
+            }
+        }
+    }
+    let acc = accept_routes(s, with_deser);
+    let replay = json!({"signature": s});
+    let subject = match &acc.from_str {
+        Ok(b) => *b,
+        Err(m) => {
+            loc.violation(
+                Violation::new("no-panic", format!("from_str({s:?}) panicked: {m}"), replay.clone()).feat("route", "from_str"),
+            );
+            false
+        }
+    };
+    for (route, r) in &acc.others {
+        match r {
+            Ok(b) if *b == subject => {}
+            Ok(b) => loc.violation(
+                Violation::new(
+                    "routes-agree",
+                    format!("{route}({s:?}) {} but from_str {}", if *b { "accepts" } else { "rejects" }, if subject { "accepts" } else { "rejects" }),
+                    replay.clone(),
+                )
+                .feat("route", route),
+            ),
+            Err(m) => loc.violation(
+                Violation::new("no-panic", format!("{route}({s:?}) panicked: {m}"), replay.clone()).feat("route", route),
+            ),
+        }
+    }
+    let class = match (&reference, subject) {
+        (Ok(_), true) => "valid-accepted",
+        (Ok(_), false) => "valid-rejected",
+        (Err(_), true) => "invalid-accepted",
+        (Err(_), false) => "invalid-rejected",
+    };
+    *loc.outcomes.entry(class).or_insert(0) += 1;
+    match (&reference, subject) {
+        (Ok(ts), true) => {
+            let mut fails = vec![];
+            check_accepted(s, ts, &mut fails);
+            for f in fails {
+                loc.violation(
+                    Violation::new(f.clause, format!("{s:?}: {}", f.detail), replay.clone())
+                        .feat("what", f.what)
+                        .feat("uses_maybe", s.contains('m')),
+                );
+            }
+        }
+        (Ok(_), false) => loc.violation(
+            Violation::new("accept-iff-grammar", format!("{s:?} is a valid signature but from_str rejects it"), replay.clone())
+                .feat("direction", "rejects-valid")
+                .feat("uses_maybe", s.contains('m')),
+        ),
+        (Err(why), true) => {
+            let relax = needed_relaxation(s.as_bytes(), sh.maybe);
+            loc.violation(
+                Violation::new(
+                    "accept-iff-grammar",
+                    format!("{s_short:?} ({} bytes) is not a valid signature ({why:?}) but from_str accepts it", s.len(), s_short = shorten(s)),
+                    replay.clone(),
+                )
+                .feat("direction", "accepts-invalid")
+                .feat("needs_dict_key_rule_dropped", relax.contains("dict-key"))
+                .feat("needs_length_rule_dropped", relax.contains("length"))
+                .feat("needs_array_depth_rule_dropped", relax.contains("array-depth"))
+                .feat("needs_struct_depth_rule_dropped", relax.contains("struct-depth"))
+                .feat("rules_not_enforced", relax),
+            );
+        }
+        (Err(_), false) => {}
+    }
+    // non-trivial: the reference or the subject accepts the string, or it is a boundary string
+    if reference.is_ok() || subject || origin == "boundary" {
+        loc.nontrivial.push(hash64(s));
+        if loc.samples.len() < 1 && s.len() >= 4 {
+            loc.samples.push(json!({"signature": shorten(s), "bytes": s.len(), "reference": reference.is_ok(), "from_str": subject, "origin": origin}));
+        }
+    }
+}
+
+fn shorten(s: &str) -> String {
+    if s.len() <= 60 {
+        s.to_string()
+    } else {
+        format!("{}...{} ", &s[..28], &s[s.len() - 28..])
+    }
+}
+
+fn flush(report: &Report, loc: Local, audited: &AtomicU64) {
+    report.eval(loc.evals);
+    for (k, n) in &loc.outcomes {
+        report.outcome_n(k, *n);
+    }
+    report.nontrivial_many(loc.nontrivial);
+    for (_, (n, v)) in loc.viol {
+        report.add("violating_observations", n);
+        if let Some(v) = v {
+            report.violation(v);
+        }
+    }
+    for s in loc.samples {
+        if report.n_samples() < 12 {
+            report.sample(s);
+        }
+    }
+    audited.fetch_add(loc.audited, Relaxed);
+}
+
+/// (string, audited against libdbus?)
+pub fn boundary_strings() -> Vec<(String, bool)> {
+    let mut out: Vec<(String, bool)> = vec![];
+    let rep = |s: &str, n: usize| s.repeat(n);
+    // byte-length family
+    for len in 253..=257usize {
+        out.push((rep("y", len), true));
+        out.push((format!("{}{}", rep("ay", len / 2), rep("y", len % 2)), true));
+        out.push((format!("({})", rep("s", len - 2)), true));
+        out.push((format!("a{{s{}}}", format_args!("({})", rep("v", len - 6))), true));
+        out.push((format!("{}{}", rep("a{sv}", len / 5), rep("h", len % 5)), true));
+        out.push((format!("m{}", rep("y", len - 1)), true));
+        // right length, not a type sequence
+        out.push((format!("{}a", rep("y", len - 1)), true));
+        out.push((format!("({}", rep("y", len - 1)), true));
+    }
+    // nesting-depth families
+    for d in 30..=34usize {
+        out.push((format!("{}y", rep("a", d)), true));
+        out.push((format!("{}{{sv}}", rep("a", d)), true)); // d arrays, innermost a dict
+        out.push((format!("{}(y)", rep("a", d)), true));
+        out.push((rep("a", d), true)); // missing element type
+        out.push((format!("{}y{}", rep("(", d), rep(")", d)), true));
+        out.push((format!("{}y{}", rep("(y", d), rep(")", d)), true));
+        out.push((format!("{}{}", rep("(", d), rep(")", d)), true)); // empty innermost struct
+        out.push((format!("y{}y{}y", rep("(", d), rep(")", d)), true));
+        // interleaved: array depth d and struct depth d
+        out.push((format!("{}y{}", rep("a(", d), rep(")", d)), true));
+        // nested dicts: array depth d, no structs (libdbus counts dict entries separately, <= 32)
+        out.push((format!("{}y{}", rep("a{s", d), rep("}", d)), true));
+        // maybe nesting: no limit stated
+        out.push((format!("{}y", rep("m", d)), true));
+        out.push((format!("{}y", rep("ma", d)), true));
+    }
+    for a in 31..=33usize {
+        for s in 31..=33usize {
+            out.push((format!("{}{}y{}", rep("a", a), rep("(", s), rep(")", s)), true));
+            out.push((format!("{}{}y{}", rep("(", s), rep("a", a), rep(")", s)), true));
+        }
+    }
+    // a dict entry is not a struct: 32 structs inside a dict entry are allowed
+    out.push((format!("a{{s{}y{}}}", rep("(", 32), rep(")", 32)), true));
+    out.push((format!("a{{s{}y{}}}", rep("(", 33), rep(")", 33)), true));
+    // NOT audited: libdbus resets its array counter after a basic type, so array nestings that go
+    // through dict entries / structs with a leading basic member are not counted faithfully by it.
+    for d in 31..=34usize {
+        let (h1, h2) = (d / 2, d - d / 2);
+        out.push((format!("{}{}y{}{}", rep("a{y", h1), rep("a(y", h2), rep(")", h2), rep("}", h1)), false));
+        out.push((format!("{}y{}", rep("a(y", d), rep(")", d)), false));
+    }
+    // dict-key family at depth
+    out.push(("a{vs}".into(), true));
+    out.push(("a{ays}".into(), true));
+    out.push(("a{(s)s}".into(), true));
+    out.push(("a{a{ss}s}".into(), true));
+    out.push(("a{mss}".into(), true));
+    // the other type codes (not in the enumeration alphabet)
+    for c in "bnqiuxtdog".chars() {
+        out.push((c.to_string(), true));
+        out.push((format!("a{c}"), true));
+        out.push((format!("a{{{c}v}}"), true));
+        out.push((format!("({c}{c})"), true));
+        out.push((format!("{c}{c}"), true));
+    }
+    for c in "efjklprwzABIN*?@&^r ".chars() {
+        out.push((c.to_string(), c != ' '));
+    }
+    out.sort_by(|a, b| (a.0.len(), &a.0).cmp(&(b.0.len(), &b.0)));
+    out.dedup();
+    out
+}
+
+pub fn main(args: &Args) -> i32 {
+    if let Some(p) = &args.replay {
+        return replay(p);
+    }
+    let report = Report::new("C06", args.tier, args.seed, "exploration");
+    let maybe = cfg!(feature = "gvariant");
+    let max_len = args.tier.pick(6usize, 8usize);
+    let k = ALPHABET.len();
+    let total = enumerate::count_strings(k, max_len);
+    let lib = LibDbus::open();
+    if lib.is_none() && args.tier == Tier::Thorough {
+        vcommon::machinery_failure("C06: libdbus-1.so.3 cannot be loaded for the refsig audit");
+    }
+    let audit_fail = Mutex::new(None);
+    let audited = AtomicU64::new(0);
+    let sh = Shared { lib: lib.as_ref(), audit_fail: &audit_fail, maybe };
+    // the Deserialize route is exercised on every string up to length 6 and on all boundary strings
+    let deser_len = 6usize;
+
+    const BLOCK: usize = 4096;
+    let n_blocks = total.div_ceil(BLOCK);
+    let run_block = |b: usize| {
+        let mut loc = Local::default();
+        let mut idx = vec![];
+        let mut s = String::new();
+        for i in b * BLOCK..((b + 1) * BLOCK).min(total) {
+            enumerate::nth_string(k, i, &mut idx);
+            s.clear();
+            s.extend(idx.iter().map(|j| ALPHABET[*j] as char));
+            eval_case(&s, "enum", true, s.len() <= deser_len, &sh, &mut loc);
+        }
+        flush(&report, loc, &audited);
+    };
+    // shortest strings first and alone: the witness kept per violation identity is a shortest one
+    run_block(0);
+    vcommon::par_for(n_blocks.saturating_sub(1), 1, |b| run_block(b + 1));
+
+    let bs = boundary_strings();
+    let mut n_unaudited = 0;
+    {
+        let mut loc = Local::default();
+        for (s, audit) in &bs {
+            if !audit {
+                n_unaudited += 1;
+            }
+            eval_case(s, "boundary", *audit, true, &sh, &mut loc);
+        }
+        flush(&report, loc, &audited);
+    }
+    if let Some(msg) = audit_fail.lock().unwrap().clone() {
+        vcommon::machinery_failure(&format!("C06 oracle audit: {msg}"));
+    }
+
+    // Reading note (not part of the property): comparing a dict signature with a &str whose key is a
+    // multi-byte character slices inside the character.
+    let probe = vcommon::catch(|| Signature::from_str("a{sv}").map(|s| s == "a{é}").unwrap_or(false));
+    if let Err(m) = probe {
+        report.note(format!("note (outside the property): Signature::from_str(\"a{{sv}}\") == \"a{{é}}\" panics: {m}"));
+    }
+    report.note("note (outside the property): Ord for Signature returns Equal for signatures of different variants (e.g. \"y\" vs \"s\"); the property only constrains equal signatures, so this is not checked here (C08 observes it through Value::Signature)");
+
+    report.set("strings_enumerated", json!(total));
+    report.set("max_len", json!(max_len));
+    report.set("boundary_strings", json!(bs.len()));
+    report.set("maybe_enabled", json!(maybe));
+    report.set("refsig_audited_against_libdbus", json!(audited.load(Relaxed)));
+    report.set(
+        "audit_not_applied",
+        json!({"strings": n_unaudited, "why": "libdbus resets its array-depth counter after a basic type code, so it does not count array nestings that pass through dict entries/structs with a leading basic member; those boundary strings are checked against the reference only"}),
+    );
+    report.assume("refsig is written from the D-Bus specification's type-system section; without `m` it is audited against libdbus dbus_signature_validate on every enumerated string and the audited boundary strings (disagreement = machinery failure)");
+    report.assume("a dict entry does not count towards the 32 nested structs (specification: 32 array type codes and 32 open parentheses)");
+    report.assume("no nesting limit applies to the GVariant maybe extension (none is documented)");
+    report.assume("Signature::to_string_no_parens strips exactly the parentheses of a structure signature, as documented");
+    if lib.is_none() {
+        report.note("libdbus not loadable: refsig audit skipped in this quick run");
+    }
+    report.finish(
+        "every string of length <= max_len over {y,s,v,a,(,),{,},h,m,z} plus boundary strings (lengths 253..257, array/struct depth 30..34, mixed); non-trivial = strings accepted by the reference or by from_str, plus all boundary strings",
+        true,
+    )
+}
+
+fn replay(path: &str) -> i32 {
+    let v = vcommon::load_replay(path);
+    let Some(s) = v["replay"]["signature"].as_str() else {
+        vcommon::machinery_failure("C06 replay: artefact needs replay.signature");
+    };
+    let maybe = cfg!(feature = "gvariant");
+    let reference = refsig(s.as_bytes(), Rules::strict(maybe));
+    println!("C06 replay: signature {:?} ({} bytes)", shorten(s), s.len());
+    match &reference {
+        Ok(ts) => println!("  reference grammar: accepts ({} complete type(s))", ts.len()),
+        Err(w) => println!("  reference grammar: rejects ({w:?}); rule that would have to be dropped: {}", needed_relaxation(s.as_bytes(), maybe)),
+    }
+    if let Some(lib) = LibDbus::open() {
+        println!(
+            "  libdbus dbus_signature_validate: {}  (reference without maybe: {})",
+            lib.call(lib.signature_validate, s),
+            refsig(s.as_bytes(), Rules::strict(false)).is_ok()
+        );
+    }
+    let acc = accept_routes(s, true);
+    println!("  from_str: {:?}", acc.from_str);
+    for (r, o) in &acc.others {
+        println!("  {r}: {o:?}");
+    }
+    let subject = acc.from_str.clone().unwrap_or(false);
+    let mut bad = acc.from_str.is_err() || acc.others.iter().any(|(_, o)| *o != Ok(subject));
+    if reference.is_ok() != subject {
+        println!("  => acceptance differs from the reference");
+        bad = true;
+    }
+    if let (Ok(ts), true) = (&reference, subject) {
+        let mut fails = vec![];
+        check_accepted(s, ts, &mut fails);
+        for f in &fails {
+            println!("  law failed: {} [{}] {}", f.clause, f.what, f.detail);
+        }
+        bad |= !fails.is_empty();
+        if fails.is_empty() {
+            println!("  all formatting/equality laws hold");
+        }
+    }
+    if bad {
+        println!("C06 replay: reproduced");
+        1
+    } else {
+        println!("C06 replay: not reproduced");
+        0
+    }
 }
